@@ -1,5 +1,2 @@
-import Hive.Base.Proto
-open Hive.Proto
-
-/-- Placeholder driver: answers `unimplemented` to every request. -/
-def main : IO Unit := run () (fun s _ => (s, "unimplemented"))
+import Hive.Model.DaemonExec
+def main : IO Unit := Hive.Proto.run Hive.Daemon.DSt.init Hive.Daemon.stepLine
